@@ -59,12 +59,15 @@ def with_daemonset(nodes, pods, name="agent", cpu=300, sel=None):
 
 # ------------------------------------------------------------------ the model's grid
 def grid_catalog(g):
-    """base[i] = {spot, od} price units; zmod = per capacity type what zone zb looks like."""
+    """base[i] = {spot, od} price units; zmod = per capacity type what zone zb looks like; unav[i] = which zone-za offerings
+    of type i are out of capacity; resv = a capacity reservation on one type in zone za (available or exhausted)."""
     cat = []
+    unav = g.get("unav") or [{"spot": False, "od": False} for _ in g["base"]]
+    resv = g.get("resv") or {"state": "none"}
     for i, b in enumerate(g["base"]):
         offs = []
         for ct, key in (("spot", "spot"), ("on-demand", "od")):
-            offs.append(offering("zone-a", ct, b[key]))
+            offs.append(offering("zone-a", ct, b[key], available=not unav[i][key]))
             zm = g["zmod"][key]
             if zm == "same":
                 offs.append(offering("zone-b", ct, b[key]))
@@ -74,13 +77,20 @@ def grid_catalog(g):
                 offs.append(offering("zone-b", ct, b[key], available=False))
             elif zm != "none":
                 raise vlib.InfraError("unknown zone modifier %r" % zm)
+        if resv["state"] != "none" and resv["t"] == i + 1:
+            ok = resv["state"] == "avail"
+            offs.append(offering("zone-a", "reserved", resv["price"], available=ok, rid="res-%d" % (i + 1), rcap=1 if ok else 0))
         cat.append(itype("t%d" % (i + 1), 2000 * 2 ** i, offs))
     return cat
 
 
 def grid_scenario(g, idx, tier="quick"):
     cat = grid_catalog(g)
-    pools = [dc.pool("pa"), dc.pool("pr")]
+    # the capacity types the pool allows (always those of its own nodes, so that nothing is drifted)
+    cts = list(g.get("poolCts") or ["reserved", "spot", "on-demand"])
+    cts += [c["ct"] for c in g["cands"] if c["ct"] not in cts]
+    reqs = [] if len(set(cts)) == 3 else [{"key": "karpenter.sh/capacity-type", "op": "In", "values": sorted(set(cts))}]
+    pools = [dc.pool("pa", requirements=reqs), dc.pool("pr")]
     nodes, pods = [], []
     for i, c in enumerate(g["cands"]):
         nm = "c%d" % (i + 1)
@@ -237,6 +247,38 @@ def directed(rng):
         out.append(scenario("daemon-dest:%d" % free, default_catalog(), [dc.pool("pa"), dc.pool("pr")], nodes, pods,
                             [{"a": "Method", "method": "single"}, {"a": "Round"}],
                             {"kind": "directed", "case": "daemon-dest"}, daemonsets=[ds]))
+    # L: cheap-but-UNAVAILABLE offerings of a capacity type that precedes the one that would really launch (an exhausted
+    # reservation, ICE'd spot) next to available on-demand, on the removed node's own type and on other types, under pools that
+    # allow each subset of capacity types: the worst-case launch price is over AVAILABLE offerings only
+    subsets = {"r+od": ["reserved", "on-demand"], "s+od": ["spot", "on-demand"], "r+s+od": None, "r+s": ["reserved", "spot"],
+               "od": ["on-demand"]}
+    for pname, cts in subsets.items():
+        for shape in ("own-type", "other-type", "both", "spot-dear"):
+            cat = []
+            for i in range(3):
+                od = 2 * 2 ** i
+                offs = [offering("zone-a", "on-demand", od), offering("zone-b", "on-demand", od)]
+                if shape == "spot-dear":      # overlay-priced: the available spot offerings are NOT cheaper than on-demand
+                    offs += [offering("zone-a", "spot", od + 1), offering("zone-b", "spot", od)]
+                else:                         # spot exists but is out of capacity everywhere
+                    offs += [offering("zone-a", "spot", 1, available=False), offering("zone-b", "spot", 1, available=False)]
+                cat.append(itype("t%d" % (i + 1), 2000 * 2 ** i, offs))
+            # exhausted reservations (price 0): on the removed node's own type t2 and / or on the larger type t3
+            if shape in ("own-type", "both", "spot-dear"):
+                cat[1]["offerings"].append(offering("zone-a", "reserved", 0, available=False, rid="res-own", rcap=0))
+            if shape in ("other-type", "both"):
+                cat[2]["offerings"].append(offering("zone-a", "reserved", 0, available=False, rid="res-big", rcap=0))
+            reqs = [{"key": "karpenter.sh/capacity-type", "op": "In", "values": cts}] if cts else []
+            # c1: on-demand t2 whose pods need more than a t1; c2 + c3: two on-demand t2 whose pods together need a t3
+            nodes = [dc.node("c1", "pa", "t2")]
+            pods = [dc.pod("p1", "c1", cpu=2500)]
+            out.append(scenario("unavail:%s:%s:single" % (pname, shape), cat, [dc.pool("pa", requirements=reqs)], nodes, pods,
+                                [{"a": "Method", "method": "single"}, {"a": "Round"}], {"kind": "directed", "case": "unavailable-precedence"}))
+            nodes = [dc.node("c2", "pa", "t2"), dc.node("c3", "pa", "t2", zone="zone-b")]
+            pods = [dc.pod("p2", "c2", cpu=2500), dc.pod("p3", "c3", cpu=2500)]
+            out.append(scenario("unavail:%s:%s:multi" % (pname, shape), cat, [dc.pool("pa", requirements=reqs)], nodes, pods,
+                                [{"a": "Method", "method": "multi"}, {"a": "Method", "method": "single"}, {"a": "Round"}],
+                                {"kind": "directed", "case": "unavailable-precedence"}))
     # D: the pod on the removed node disappears while the command waits (witness mentions a pod that is gone)
     nodes = [dc.node("c1", "pa", "t3")]
     pods = [dc.pod("p1", "c1", cpu=1500), dc.pod("p1b", "c1", cpu=300)]
@@ -249,6 +291,8 @@ def rand_catalog(rng, ntypes, nzones, profile):
     """profile: ladder (prices grow with size, spot below on-demand) | flat (many equal prices) | wild (overlay-priced:
     any order, zero prices, spot above on-demand)."""
     zones = ["zone-a", "zone-b", "zone-c"][:nzones]
+    # how often an offering of a capacity type is out of capacity: mostly rare, sometimes a capacity type is largely gone
+    icy = {ct: rng.choice([0.12, 0.12, 0.12, 0.5, 0.9]) for ct in ("on-demand", "spot")}
     cat = []
     for i in range(ntypes):
         cpu = rng.choice([2000, 4000, 4000, 8000, 16000]) if ntypes > 6 else 2000 * 2 ** min(i, 3)
@@ -268,11 +312,13 @@ def rand_catalog(rng, ntypes, nzones, profile):
                 if r < 0.08:
                     continue                                       # not offered
                 delta = rng.choice([0, 0, 0, 1, 2, -1]) if profile != "ladder" or rng.random() < 0.3 else 0
-                offs.append(offering(z, ct, max(0, base + delta), available=rng.random() > 0.12))
+                offs.append(offering(z, ct, max(0, base + delta), available=rng.random() > icy[ct]))
         if not offs:
             offs.append(offering(zones[0], "on-demand", od))
-        if rng.random() < 0.1:                                     # a capacity reservation (usually prepaid: price 0)
-            offs.append(offering(rng.choice(zones), "reserved", rng.choice([0, 0, 1, od]), rid="res-%02d" % i, rcap=rng.randint(1, 2)))
+        if rng.random() < 0.15:                                    # a capacity reservation (usually prepaid: price 0), often exhausted
+            ok = rng.random() < 0.5
+            offs.append(offering(rng.choice(zones), "reserved", rng.choice([0, 0, 1, od]), available=ok, rid="res-%02d" % i,
+                                 rcap=rng.randint(1, 2) if ok else 0))
         cat.append(itype("x%02d" % i, cpu, offs))
     return cat, zones
 
@@ -288,10 +334,9 @@ def explore(rng, n, tag="explore"):
         policy = rng.choice(["WhenEmptyOrUnderutilized", "WhenEmptyOrUnderutilized", "WhenEmptyOrUnderutilized", "Balanced", "WhenEmpty"])
         reqs = []
         r = rng.random()
-        if r < 0.15:
-            reqs.append({"key": "karpenter.sh/capacity-type", "op": "In", "values": ["on-demand"]})
-        elif r < 0.3:
-            reqs.append({"key": "karpenter.sh/capacity-type", "op": "In", "values": ["spot"]})
+        if r < 0.45:      # every subset of capacity types a pool may allow
+            reqs.append({"key": "karpenter.sh/capacity-type", "op": "In",
+                         "values": rng.choice([["on-demand"], ["spot"], ["reserved", "on-demand"], ["spot", "on-demand"], ["reserved", "spot"]])})
         if rng.random() < 0.2:
             reqs.append({"key": "topology.kubernetes.io/zone", "op": "In", "values": rng.sample(zones, rng.randint(1, len(zones)))})
         if rng.random() < 0.25:
